@@ -110,7 +110,7 @@ class Rec:
         if len(d) != 2 or l in fn.borrowed_mut or fn.partial.get(l) or (1 <= l <= fn.arg_count):
             return None
         (b1, s1, x1), (b2, s2, x2) = d
-        if b1 == b2 or s1 == 'term' or s2 == 'term':
+        if b1 == b2:
             return None
         dom = fn.dominators()
         common = [b for b in dom.get(b1, ()) if b in dom.get(b2, ()) and b not in (b1, b2)]
@@ -122,9 +122,21 @@ class Rec:
         if best is None:
             return None
         t = fn.term(best)
-        if t['k'] != 'switch' or t.get('discr_ty') != 'bool' or len(t['arms']) != 1 or int(t['arms'][0][0]) != 0:
+        if t['k'] != 'switch':
             return None
-        f_tgt, t_tgt = t['arms'][0][1], t['otherwise']
+        eq_val = None
+        if t.get('discr_ty') == 'bool':
+            if len(t['arms']) != 1 or int(t['arms'][0][0]) != 0:
+                return None
+            f_tgt, t_tgt = t['arms'][0][1], t['otherwise']
+        else:
+            # a two-armed `match` on an enum discriminant / integer (`match opt { Some(x) => a, None => b }`): exactly two live targets
+            tg = [(int(v), b) for v, b in t['arms']] + [(None, t['otherwise'])]
+            live = [(v, b) for v, b in tg if fn.term(b)['k'] != 'unreachable']
+            if len(live) != 2 or live[0][1] == live[1][1] or all(v is None for v, _ in live):
+                return None
+            live.sort(key=lambda x: (-1 if x[0] is None else x[0]))
+            (fv, f_tgt), (eq_val, t_tgt) = live
         if f_tgt == t_tgt:
             return None
 
@@ -140,7 +152,10 @@ class Rec:
             if (b1 in L['body']) != (best in L['body']) or (b2 in L['body']) != (best in L['body']):
                 return None
         cond = self.operand(t['discr'], depth + 1)
-        v1, v2 = self.rvalue(x1, depth + 1), self.rvalue(x2, depth + 1)
+        if eq_val is not None:
+            cond = ('bin', 'Eq', cond, ('k', eq_val))
+        v1 = self.call(x1, depth + 1) if s1 == 'term' else self.rvalue(x1, depth + 1)
+        v2 = self.call(x2, depth + 1) if s2 == 'term' else self.rvalue(x2, depth + 1)
         return ('ite', cond, v1, v2) if sd1 == 't' else ('ite', cond, v2, v1)
 
     def place(self, p, depth=0):
